@@ -44,6 +44,11 @@ struct AppLog {
     done: bool,
     credit_calls: Vec<u32>,
     drains: u32,
+    /// deliveries the scripted sender has completely written
+    peer_sent: u32,
+    /// the application lowered the credit (at a quiescent moment) to less than the number of
+    /// deliveries that had arrived within the earlier credit and that it had not read yet
+    credit_cut_below_backlog: bool,
 }
 
 struct DcStmt {
@@ -76,14 +81,21 @@ struct St {
     /// earlier may still have been queued inside the receiving endpoint
     restated: bool,
     may_restate: bool,
+    log: Rc<RefCell<AppLog>>,
 }
 
 /// Signature of the known ordering defect (DESIGN section 5, S16): the session task applies
 /// a sender's flow (delivery-count) at once, while transfers that preceded it on the wire are
 /// still queued for the link; they are then counted on top of the restated value.
+///
+/// Second signature, same root (the link's credit is consumed when the application reads a
+/// delivery, not when it arrives): the application lowers the credit while deliveries that
+/// arrived within the earlier credit wait unread; they are then charged to the new credit.
 fn sig_of(st: &St) -> &'static str {
     if st.restated {
         "sender-flow-overtakes-queued-transfers"
+    } else if st.log.borrow().credit_cut_below_backlog {
+        "credit-lowered-below-unread-deliveries"
     } else {
         ""
     }
@@ -216,6 +228,7 @@ async fn send_delivery(peer: &mut Peer, st: &mut St, settled: bool) {
     }
     st.dc_snd = st.dc_snd.wrapping_add(1);
     st.completed += 1;
+    st.log.borrow_mut().peer_sent += 1;
     st.sent.push(msg);
     if !settled {
         st.unsettled_ids.push(id);
@@ -313,7 +326,15 @@ fn spawn_app(mut r: Receiver, log: Rc<RefCell<AppLog>>, mode: Mode, dispose_kind
                             cur_credit = manual_credits[manual_idx];
                             manual_idx += 1;
                             since_credit = 0;
-                            log.borrow_mut().credit_calls.push(cur_credit);
+                            {
+                                let mut l = log.borrow_mut();
+                                l.credit_calls.push(cur_credit);
+                                let backlog = l.peer_sent.saturating_sub(l.received.len() as u32);
+                                if backlog > cur_credit {
+                                    l.credit_cut_below_backlog = true;
+                                    sim::probe("credit-lowered-below-unread-deliveries");
+                                }
+                            }
                             if r.set_credit(cur_credit).await.is_err() {
                                 break;
                             }
@@ -632,6 +653,7 @@ pub async fn run_client() {
         unsettled_ids: Vec::new(),
         restated: false,
         may_restate: choice(4) == 1,
+        log: log.clone(),
     };
     script(&mut peer, &mut st, &net, &log, mode, total, settled_by_sender, drain_after).await;
     if sim::has_violation() {
@@ -748,6 +770,7 @@ pub async fn run_listener() {
         unsettled_ids: Vec::new(),
         restated: false,
         may_restate: choice(4) == 1,
+        log: log.clone(),
     };
     // the flows the acceptor sent before the application configured the link
     for f in std::mem::take(&mut peer.skipped) {
